@@ -15,6 +15,7 @@ import (
 	"github.com/corazawaf/coraza/v3/experimental/plugins"
 	"github.com/corazawaf/coraza/v3/experimental/plugins/plugintypes"
 	"github.com/corazawaf/coraza/v3/internal/verif/mc"
+	"github.com/corazawaf/coraza/v3/internal/verif/probe"
 	"github.com/corazawaf/coraza/v3/internal/verif/runner"
 	"github.com/corazawaf/coraza/v3/internal/verif/scen"
 	"github.com/corazawaf/coraza/v3/internal/verif/sched"
@@ -560,7 +561,11 @@ func replaySched(k schedCase) (bool, string) {
 	}
 	var vs []verdict
 	var res sched.Result
-	mc.Replay(k.Choices, func(cx *mc.Ctx) { res, vs = e.execute(cx) })
+	// lenient: on a tree other than the one the schedule was recorded on the
+	// choice points may differ; answers are then reduced instead of failing
+	if p := probe.Safe(func() { mc.ReplayLenient(k.Choices, func(cx *mc.Ctx) { res, vs = e.execute(cx) }) }); p != "" {
+		return false, "the recorded schedule cannot be followed on this tree: " + p
+	}
 	var sb strings.Builder
 	fmt.Fprintf(&sb, "scenario %q, schedule %s\n", e.sc.name, strings.Join(res.Trace, " "))
 	for _, v := range vs {
